@@ -36,6 +36,10 @@ func init() {
 }
 
 func runC11(c *an.Ctx) {
+	dnssvcWiring(c, "C11-R12", func(dst, src string) bool {
+		n := normName(dst) + " " + normName(src)
+		return strings.Contains(n, "hashmatcher")
+	}, 1)
 	// ---- C11-R12: builder wiring of the components this property rests on
 	c.Floor("C11-R12", 10)
 	builderWiring(c, "C11-R12", map[string][]string{
